@@ -219,14 +219,28 @@ type Stack = tracing_subscriber::subscribe::Layered<
 /// `how` (mod 3): the stack is handed to `Dispatch::new` as itself, behind `Arc`, or behind `Box`
 /// (tracing-core's `Collect` implementations for the pointers forward every method).
 fn mk_stack(log: Arc<LayerLog>, how: u64) -> Dispatch {
+    let log2 = log.clone();
     let s: Stack = Registry::default()
         .with(RecLayer { layer: 0, log: log.clone() })
         .with(RecLayer { layer: 1, log })
         .with(ErrorSubscriber::default());
-    match how % 3 {
+    match how % 5 {
         0 => Dispatch::new(s),
         1 => Dispatch::new(Arc::new(s)),
-        _ => Dispatch::new(Box::new(s)),
+        2 => Dispatch::new(Box::new(s)),
+        // the pointer INSIDE the stack: layers over `Arc<Registry>`, and an outer pair of layers
+        // over a boxed inner stack (both are collectors with span lookup in their own right)
+        3 => Dispatch::new(
+            Arc::new(Registry::default())
+                .with(RecLayer { layer: 0, log: log2.clone() })
+                .with(RecLayer { layer: 1, log: log2 })
+                .with(ErrorSubscriber::default()),
+        ),
+        _ => Dispatch::new(
+            Box::new(Registry::default().with(RecLayer { layer: 0, log: log2.clone() }))
+                .with(RecLayer { layer: 1, log: log2 })
+                .with(ErrorSubscriber::default()),
+        ),
     }
 }
 
@@ -1196,7 +1210,7 @@ pub fn run_history(seed: u64, idx: u64, fresh: Arc<Fresh>, w: Weights, max_ops: 
     let mut r0 = Rng::derive(seed, 0xC05A, idx);
     let nthreads = 1 + r0.usize(3);
     let logs: Vec<Arc<LayerLog>> = (0..2).map(|_| Arc::new(LayerLog::default())).collect();
-    let how0 = r0.below(3);
+    let how0 = r0.below(5);
     let disp: Vec<Dispatch> = logs.iter().enumerate().map(|(i, l)| mk_stack(l.clone(), how0 + i as u64)).collect();
     let world = Arc::new(Mutex::new(World {
         disp,
